@@ -1014,3 +1014,82 @@ def check_c12(rep):
 
 
 REGISTRY.update({"C12": (check_c12, "model_checking")})
+
+
+# --------------------------------------------------------------------------------------------------
+# C07 noise budget
+# --------------------------------------------------------------------------------------------------
+def budget_event(raw):
+    q = [int(m) for m in raw["q"]]
+    Q = 1
+    for m in q:
+        Q *= m
+    t = int(raw["t"])
+    L = arith.limbs
+    ev = {"ev": "budget", "scheme": raw["scheme"], "n": raw["n"], "t": L(t), "tbits": t.bit_length(), "q": [L(m) for m in q], "Q": L(Q), "reported": int(raw["reported"]),
+          "rule": raw["rule"], "operands": [int(x) for x in raw["operands"]], "dec": [L(int(v)) for v in raw["dec"]], "exp": [L(int(v)) for v in raw["exp"]], "coef": []}
+    below = True
+    for r in raw["phase"]:
+        x = 0
+        for ri, m in zip(r, q):
+            pm = Q // m
+            x += int(ri) * pow(pm % m, -1, m) % m * pm
+        x %= Q
+        y = t * x if raw["scheme"] == "bfv" else x
+        wp = y % Q
+        kq = y // Q
+        if 2 * wp > Q:
+            wneg, wmag = True, Q - wp
+        else:
+            wneg, wmag = False, wp
+        co = {"x": L(x), "r": [L(int(v)) for v in r], "h": [L(x // m) for m in q], "kq": L(kq), "wneg": wneg, "wmag": L(wmag), "mag": L(wmag), "adj": 0, "tneg": False, "tmag": []}
+        if raw["scheme"] == "bfv":
+            j = len(ev["coef"])
+            D = t * x - Q * int(raw["exp"][j])
+            adj = 0
+            if 2 * D > t * Q:
+                adj = -1
+            elif 2 * D < -t * Q:
+                adj = 1
+            W = D + adj * t * Q
+            co.update({"adj": adj, "tneg": W < 0, "tmag": L(abs(W))})
+            if 2 * abs(W) >= Q:
+                below = False
+        ev["coef"].append(co)
+    ev["below_threshold"] = below
+    return ev
+
+
+def check_c07(rep):
+    quick = rep.tier == "quick"
+    wd = workdir("C07")
+    psets = ["bfv_8_17_50,50,50,50", "bgv_8_17_50,50,50,50", "bfv_4_17_30,30", "bgv_4_17_40,30,40", "bfv_8_12289_40,40,40",
+             "bfv_8_1125899906842817_60,60,60", "bfv_4_1099511627777_50,50,50"]      # plain moduli of 51 and 41 bits
+    if not quick:
+        psets += ["bfv_16_97_55,55,55,55,55", "bgv_16_97_60,60,60,60", "bfv_8_17_60,60,60,60,60,60,60", "bgv_8_257_25,30,35,40,45", "bfv_4_5_20,20"]
+    raw = []
+    for ps in psets:
+        raw += [json.loads(l) for l in hcv(["c07", ps, str(rep.seed), rep.tier], timeout=900).splitlines()]
+    lines = [json.dumps(budget_event(r)) for r in raw]
+    bad, st = arith.validate(lines, wd, module="Trace_Budget", timeout=3000, chunks=8)
+    rep.cov["states"] = st["distinct"]
+    rep.cov["transitions"] = st["generated"]
+    rep.cov["traces_validated_against_impl"] = len(lines)
+    rep.cov["evaluations"] = len(lines)
+    rep.cov["distinct_nontrivial"] = len({json.dumps([r["what"], r["scheme"], r["n"], r["q"], r["size"], r["lvl"], r["reported"], r["operands"]]) for r in raw})
+    rep.cov["zero_budget_events"] = sum(1 for r in raw if r["reported"] == 0)
+    rep.cov["per_kind"] = {k: sum(1 for r in raw if r["what"] == k) for k in sorted({r["what"] for r in raw})}
+    rep.cov["rule"] = ("events = ciphertexts produced by small programs (fresh pk/sk/seeded, zero at every level, negate, add_many and subtraction chains of 2..5 (2..8) operands, mixed-size add/sub, "
+                       "multiplication chains with relinearization and mod switch down to zero budget) for BFV/BGV with N = 4..16 and 1..7 primes; the phase is computed by the harness with naive negacyclic "
+                       "products in u128; TLC certifies the CRT of every coefficient, recomputes norm and budget with BigNat and compares with the reported value, checks the fresh / negate / k-ary rules and "
+                       "that below the threshold the decrypted plaintext is the expected one")
+    for b in bad:
+        r = raw[b[0] - 1]
+        rep.violation({"what": r["what"], "scheme": r["scheme"], "rule": r["rule"]}, {"event": {k: v for k, v in r.items() if k != "phase"}})
+    rep.samples += [{k: v for k, v in raw[i].items() if k != "phase"} for i in (0, len(raw) // 2, len(raw) - 1)]
+    rep.assumptions += ["the secret key is brought to coefficient form with the library's inverse NTT (covered by C09); everything else in the phase computation is independent of the library",
+                        "fresh bound: |w| <= 2 t (21 (2N+1) + 2), i.e. the deterministic sample bounds plus the rounding of the internal switch from the key level"]
+    log("[C07] %d budget events (%d at zero budget), %d rejected" % (len(raw), rep.cov["zero_budget_events"], len(bad)))
+
+
+REGISTRY.update({"C07": (check_c07, "model_checking")})
